@@ -166,6 +166,9 @@ func (sll *LinuxSLL2) DecodeFromBytes(data []byte, df gopacket.DecodeFeedback) e
 	sll.ARPHardwareType = ARPHardwareType(binary.BigEndian.Uint16(data[8:10]))
 	sll.PacketType = LinuxSLL2PacketType(data[10])
 	sll.AddrLength = data[11]
+	if sll.AddrLength > 8 {
+		return errors.New("Linux SLL2 address length exceeds the 8-byte address field")
+	}
 	sll.Addr = data[12:20]
 	sll.Addr = sll.Addr[:sll.AddrLength]
 	sll.BaseLayer = BaseLayer{data[:20], data[20:]}
